@@ -73,6 +73,7 @@ int pem_read(FILE *fp, const char *name, uint8_t *data, size_t *datalen, size_t 
 	char begin_line[80];
 	char end_line[80];
 	int len;
+	uint8_t buf[128];
 	BASE64_CTX ctx;
 
 	snprintf(begin_line, sizeof(begin_line), "-----BEGIN %s-----", name);
@@ -116,12 +117,29 @@ int pem_read(FILE *fp, const char *name, uint8_t *data, size_t *datalen, size_t 
 			break;
 		}
 
-		base64_decode_update(&ctx, (uint8_t *)line, (int)strlen(line), data, &len);
+		// a line of at most 79 characters plus at most 63 buffered ones decodes to at most 106 bytes
+		if (base64_decode_update(&ctx, (uint8_t *)line, (int)strlen(line), buf, &len) < 0) {
+			error_print();
+			return -1;
+		}
+		if (len < 0 || (size_t)len > maxlen - *datalen) {
+			error_print();
+			return -1;
+		}
+		memcpy(data, buf, len);
 		data += len;
 		*datalen += len;
 	}
 
-	base64_decode_finish(&ctx, data, &len);
+	if (base64_decode_finish(&ctx, buf, &len) != 1) {
+		error_print();
+		return -1;
+	}
+	if (len < 0 || (size_t)len > maxlen - *datalen) {
+		error_print();
+		return -1;
+	}
+	memcpy(data, buf, len);
 	*datalen += len;
 	return 1;
 }
